@@ -139,11 +139,14 @@ def _rat_args(fr: Frame, args, kwargs) -> List[Rat]:
     return out
 
 
-def _opaque_call(fr: Frame, name: str, args, kwargs, array: Optional[bool] = None) -> Rat:
-    ra = _rat_args(fr, args, kwargs)
-    if array is None:
-        array = any(x.is_array() for x in ra)
-    return anf.opaque(name, *ra, array=array, extra=tuple(sorted(kwargs)) or None)
+def _opaque_call(fr: Frame, name: str, args, kwargs, array: Optional[bool] = None):
+    kws = sorted(kwargs)
+
+    def mk(*vals):
+        ra = _rat_args(fr, list(vals[:len(args)]), dict(zip(kws, vals[len(args):])))
+        arr = any(x.is_array() for x in ra) if array is None else array
+        return anf.opaque(name, *ra, array=arr, extra=tuple(kws) or None)
+    return lift(mk, *(list(args) + [kwargs[k] for k in kws]))
 
 
 def _minmax(fr: Frame, which: str, items) -> Any:
@@ -180,8 +183,11 @@ def _package_call(fr: Frame, fi, e, args, kwargs, guard, stmt):
     fr.events.append(Event(guard, "call", fi.qualname, tuple(args), e, fr.havoc_depth))
     # opaque: keyed by the callee and *all* bound arguments (defaults included by name)
     names = [p for p in pos if p in amap] + sorted(k for k in amap if k not in pos)
-    ra = _rat_args(fr, [amap[n] for n in names], {})
-    return anf.opaque("call:" + fi.qualname, *ra, array=any(x.is_array() for x in ra), extra=tuple(names))
+
+    def mk(*vals):
+        ra = _rat_args(fr, list(vals), {})
+        return anf.opaque("call:" + fi.qualname, *ra, array=any(x.is_array() for x in ra), extra=tuple(names))
+    return lift(mk, *[amap[n] for n in names])
 
 
 def _method_call(fr: Frame, e, f: ast.Attribute, args, kwargs, env, guard, stmt):
